@@ -2,9 +2,9 @@ SPEC = {
     "id": "C06",
     "n": {"quick": 400, "thorough": 12000},
     "components": {"1": "normalised (flattened) query", "2": "plan (service, type, path, selections per sub-plan)",
-                   "3": "gateway answer"},
-    "corr_name": "Federation.Model (flatten, plan, fed_exec) vs federation flattener / Planner / Executor",
-    "coq_modules": [],
+                   "3": "gateway answer", "4": "reference semantics (eval_ref) vs the harness reference evaluator"},
+    "corr_name": "Federation.Normalize/Planner/Executor (flatten, plan_root, fed_exec, eval_ref) vs federation flattener / Planner / Executor and the harness reference evaluator",
+    "coq_modules": ["Federation.Check06"],
     "harness_timeout": {"quick": 600, "thorough": 3000},
     "trusted_base": [
         "Coq 8.16.1 kernel and vm_compute (no native_compute); Print Assumptions: closed under the global context",
